@@ -1,0 +1,44 @@
+//go:build verif
+
+package test
+
+// Verification hook for property C26 (test outcomes are parsed and summarised faithfully).
+// Add-only; compiled only with -tags verif. Exports the unexported result parsers unchanged.
+
+import (
+	"time"
+
+	"github.com/thought-machine/please/src/core"
+)
+
+// VerifC26ParseResults is parseTestResults: every datum is parsed by the format dispatch and the
+// resulting suites are collapsed into one.
+func VerifC26ParseResults(data [][]byte) (core.TestSuite, error) {
+	return parseTestResults(data)
+}
+
+// VerifC26ParseDatum is parseTestResultDatum (format dispatch for one results file).
+func VerifC26ParseDatum(data []byte) (core.TestSuite, error) {
+	return parseTestResultDatum(data)
+}
+
+// VerifC26ParseJUnit is parseJUnitXMLTestResults (one core.TestSuite per <testsuite>).
+func VerifC26ParseJUnit(data []byte) (core.TestSuites, error) {
+	return parseJUnitXMLTestResults(data)
+}
+
+// VerifC26ParseGo is parseGoTestResults.
+func VerifC26ParseGo(data []byte) (core.TestSuite, error) {
+	return parseGoTestResults(data)
+}
+
+// VerifC26LooksLikeJUnit is looksLikeJUnitXMLTestResults.
+func VerifC26LooksLikeJUnit(data []byte) bool {
+	return looksLikeJUnitXMLTestResults(data)
+}
+
+// VerifC26ParseOutput is parseTestOutput: what one execution of a test target is turned into,
+// given the exit status of the test command and the result files it wrote.
+func VerifC26ParseOutput(runError error, target *core.BuildTarget, resultsData [][]byte) core.TestSuite {
+	return parseTestOutput("", "", runError, time.Millisecond, target, resultsData)
+}
